@@ -84,6 +84,11 @@ def _api_shard(args):
         try:
             op = oplists.build_op(api, s, ae)
             cfgs = api.npu_find_block_configs(op, ae)
+        except AssertionError:
+            # the query found no configuration that fits (it asserts instead of returning an empty list): nothing is offered, so the
+            # property - which speaks about the configurations that ARE offered - has nothing to judge
+            stats["none_offered"] += 1
+            continue
         except Exception as e:
             bad.append((acc, spec, None, "query raised %s: %s" % (type(e).__name__, str(e)[:100])))
             continue
